@@ -8,8 +8,8 @@ protocol (one output line per input line); an empty record / list is written as 
       `w`  = width of field 0,1,2...;  node `i`: `kind/nodep/cap/isPipe/req/gen/vpred`  (vpred: EMPTY or `field:mask`, the node's
       method validates `(field & mask) != 0`)
       kind `E` external (`add_external`), `C` computed (called method / function stage);
-      `req` = comma list of field ids; `gen` = `;`-separated `field:const:c1.c2...` (coefficients per
-      required field)
+      `req` = comma list of field ids; `gen` = `;`-separated `field:const:c1.c2...[:width]` (coefficients per
+      required field; `width` when the stage redefines the field with another shape)
   `live`  gives  `live 0,1|0,1,2|EMPTY`   (fields live after each node, `get_live_signals`)
   `cyc c=0 e0=1/0:5,1:7/n e1=0/EMPTY/n`   event per node: `fire/x/entry` with records `f:v,f:v`, entry `n` = none
       gives `c=0 o0=EMPTY/0:5,1:7/n o1=.`   per node `ret/gen/ent` (`.` = nothing happened)
@@ -42,8 +42,11 @@ def parseGen (s : String) : Option (List GenSpec) :=
     (s.splitOn ";").mapM fun g =>
       match g.splitOn ":" with
       | [f, c, cs] => match f.toNat?, c.toNat?, splitNats "." cs with
-        | some f, some c, some cs => some { field := f, const := c, coefs := cs }
+        | some f, some c, some cs => some { field := f, const := c, coefs := cs, width := none }
         | _, _, _ => none
+      | [f, c, cs, w] => match f.toNat?, c.toNat?, splitNats "." cs, w.toNat? with
+        | some f, some c, some cs, some w => some { field := f, const := c, coefs := cs, width := some w }
+        | _, _, _, _ => none
       | _ => none
 
 def parseBit (s : String) : Option Bool :=
